@@ -32,6 +32,36 @@ func DriveString(n int) {
 	rt.AssertSameLogs(0, 1, 1001)
 }
 
+// ---- long strings: a concrete ASCII prefix of pre bytes, n fully symbolic bytes, a concrete tail ----
+// (a decoder that works in blocks must not split a rune at a block boundary)
+
+func DriveStringAt(pre, n int) {
+	p := ""
+	for i := 0; i < pre; i++ {
+		p += "a"
+	}
+	s := p + rt.NondetString(1, n) + "zz"
+	for i, r := range s {
+		if i < pre-1 {
+			continue
+		}
+		rt.EmitTo(1, tagK, i)
+		rt.EmitTo(1, tagV, int(r))
+	}
+	rt.EmitTo(1, tagEnd, 0)
+	it := seq.NewStringIter(s)
+	for it.MoveNext() {
+		p := it.Current()
+		if p.Key < pre-1 {
+			continue
+		}
+		rt.EmitTo(0, tagK, p.Key)
+		rt.EmitTo(0, tagV, int(p.Val))
+	}
+	rt.EmitTo(0, tagEnd, 0)
+	rt.AssertSameLogs(0, 1, 1011)
+}
+
 // ---- integer: every n <= max (all n <= 0 in one path) ----
 
 func DriveInt(max int) {
